@@ -245,8 +245,8 @@ func cmdRun(args []string) {
 	// vacuity: required counters
 	for _, sc := range scs {
 		m := merged[sc.Name]
-		if m == nil || !m.Exhaustive {
-			continue
+		if m == nil || !m.Exhaustive || len(m.Violations) > 0 {
+			continue // a violation cuts executions short; vacuity is judged on clean runs only
 		}
 		for _, c := range sc.NeedCounters {
 			if m.Counters[c] == 0 {
